@@ -11,6 +11,7 @@ UNITS[name] = dict(module=..., rlimit=..., timeout=...)
 
 UNITS = {
     'codec_mut': dict(module='units.codec_mut', rlimit=150, timeout=300),
+    'rollback': dict(module='units.rollback', rlimit=50, timeout=300),
 }
 
 PROPS = {
@@ -25,6 +26,10 @@ PROPS = {
     'C20': dict(
         units=[('codec_mut', r'(Version)')],
         kani=['c20_version_gte_lt', 'c20_gate_monotone'],
+    ),
+    'C15': dict(
+        units=[('rollback', r'(rollbacks|C15|Frame::len)')],
+        kani=[],
     ),
     'C13': dict(
         units=[('codec_mut', r'(transpose_one)')],
